@@ -239,11 +239,16 @@ func (s *Session) rpcContext(r *rpcState, st Step) {
 		md.Set("x-rpc", fmt.Sprint(r.n))
 		ctx = metadata.NewOutgoingContext(ctx, md)
 	}
+	var c context.Context
+	var cancel context.CancelFunc
 	if st.Timeout > 0 {
-		r.ctx, r.cancel = context.WithTimeout(ctx, time.Duration(st.Timeout)*time.Millisecond)
+		c, cancel = context.WithTimeout(ctx, time.Duration(st.Timeout)*time.Millisecond)
 	} else {
-		r.ctx, r.cancel = context.WithCancel(ctx)
+		c, cancel = context.WithCancel(ctx)
 	}
+	s.mu.Lock()
+	r.ctx, r.cancel = c, cancel
+	s.mu.Unlock()
 }
 
 func has(l []string, x string) bool {
